@@ -7,6 +7,7 @@ import (
 	"fmt"
 	"runtime"
 	"strings"
+	"sync/atomic"
 	"time"
 )
 
@@ -16,6 +17,14 @@ type Result struct {
 }
 
 var Threshold = 8 * time.Second
+
+// Hangs counts the calls reported as hung in this process.  Every one of them is a violation on
+// its own and costs about two thresholds of waiting, so a driver stops at the next scenario
+// boundary once HangBudget of them are recorded (tr.Writer.Begin): a change that hangs in
+// hundreds of cases is then reported in minutes instead of running into the check's timeout.
+var Hangs int64
+
+const HangBudget = 16
 
 // Call runs f; marker is a substring identifying library frames (e.g. "biogo/hts/bgzf").
 func Call(marker string, f func()) Result {
@@ -70,6 +79,7 @@ func Call(marker string, f func()) Result {
 		case <-time.After(Threshold / 4):
 		}
 		if blocked != "" && i == 2 {
+			atomic.AddInt64(&Hangs, 1)
 			return Result{"hang", blocked}
 		}
 	}
